@@ -28,12 +28,20 @@ def ensure_gomutate():
 
 CHECKER = ""
 local = threading.local()
+base_lock = threading.Lock()
 dirs = []
+
+BASE = os.environ.get("SWEEP_BASE", "")   # a commit of /repo: the sweep records hold byte offsets into the files as they were then
 
 def scratch():
     if not hasattr(local, "dir"):
         d = tempfile.mkdtemp(prefix="ankosweep.")
-        shutil.copytree(REPO, os.path.join(d, "repo"), ignore=shutil.ignore_patterns(".git"))
+        if BASE:
+            os.makedirs(os.path.join(d, "repo"))
+            a = subprocess.run("git -C %s archive %s | tar -x -C %s" % (REPO, BASE, os.path.join(d, "repo")), shell=True, capture_output=True, text=True)
+            assert a.returncode == 0, a.stderr
+        else:
+            shutil.copytree(REPO, os.path.join(d, "repo"), ignore=shutil.ignore_patterns(".git"))
         os.makedirs(os.path.join(d, "verif", "evidence"))
         for f in ("known_findings.jsonl", "exceptions.json", "properties.jsonl"):
             shutil.copy(os.path.join(VERIF, f), os.path.join(d, "verif"))
@@ -173,16 +181,36 @@ def report_benign(tag=""):
             for l in r.get("reports", [])[:3]:
                 print("      ", l)
 
+BASELINE = None   # reports of the checker on the unmutated base tree (non-empty only when the base is an older commit whose defects were repaired since)
+
+def report_keys(out):
+    """rule + instance of every violation line (without the position, which a mutant shifts)"""
+    ks = {}
+    for l in out.splitlines():
+        if l.startswith("  C") and "[" in l:
+            rule = l.split("]")[0].split("[")[1]
+            inst = l.split("]", 1)[1].split(" at ", 1)[0].strip()
+            ks[(rule, inst)] = l.strip()[:240]
+    return ks
+
 def recheck_one(m):
+    global BASELINE
     d = scratch()
     repo = os.path.join(d, "repo")
+    env = dict(ENV, VERIF_DIR=os.path.join(d, "verif"))
+    with base_lock:
+        if BASELINE is None:
+            c0 = subprocess.run([CHECKER, "all", "--root", repo], env=env, capture_output=True, text=True)
+            BASELINE = report_keys(c0.stdout)
+            print("baseline reports on the base tree:", len(BASELINE), flush=True)
     path = os.path.join(repo, m["file"])
     src = open(path, "rb").read()
     try:
         open(path, "wb").write(apply_edits(src, m))
-        c = subprocess.run([CHECKER, "all", "--root", repo], env=dict(ENV, VERIF_DIR=os.path.join(d, "verif")), capture_output=True, text=True)
-        m["caught_by"] = sorted({l.split("]")[0].split("[")[1] for l in c.stdout.splitlines() if l.startswith("  C") and "[" in l})
-        m["first_report"] = next((l.strip()[:240] for l in c.stdout.splitlines() if l.startswith("  C")), "")
+        c = subprocess.run([CHECKER, "all", "--root", repo], env=env, capture_output=True, text=True)
+        ks = {k: v for k, v in report_keys(c.stdout).items() if k not in BASELINE}
+        m["caught_by"] = sorted({k[0] for k in ks})
+        m["first_report"] = next(iter(ks.values()), "")
         return m
     finally:
         open(path, "wb").write(src)
